@@ -25,3 +25,8 @@ pub mod parsers;
 pub mod renderers;
 pub mod rules;
 pub mod testcase;
+
+// verification hook (off by default): deterministic simulator of the OS boundary, source lives in /verif
+#[cfg(feature = "verif_sim")]
+#[path = "/verif/simcore/mod.rs"]
+pub mod verif_sim;
